@@ -543,7 +543,7 @@ func c03SourceDateEpochSet(run *ev.Run, tier string, st *digStats) {
 			continue
 		}
 		y := c.Spec.YAML()
-		for _, sde := range []string{"1000000000", "2000000001"} {
+		for _, sde := range []string{"1000000000", "2000000001", "-86400"} { // the last: a date before 1970
 			_ = os.Setenv("SOURCE_DATE_EPOCH", sde)
 			for _, f := range formats {
 				run.Case(fmt.Sprintf("source-date-epoch-set|%s|configured-mtime=%v|%s|%d", sde, c.Spec.MTime != 0, f, i), true)
